@@ -331,7 +331,9 @@ where
         let _timer = ScopedTimer::new("receive_snapshot_stream_from_leader");
 
         info!(?ack_tx, %current_term, "receive_snapshot_stream_from_leader");
-        let (final_metadata, snapshot_path) = self
+        // The archive is validated and unpacked BEFORE it is given its final name
+        // (see process_snapshot_stream), so a failed transfer never leaves a final snapshot file.
+        let (final_metadata, snapshot_path, temp_dir) = self
             .process_snapshot_stream(stream_chunk_receiver, ack_tx.clone(), config)
             .await?;
 
@@ -340,10 +342,6 @@ where
             ?snapshot_path,
             "before apply_snapshot_from_file"
         );
-
-        // Decompress before passing to state machine
-        let temp_dir = tempdir()?;
-        self.decompress_to_directory(&snapshot_path, temp_dir.path()).await?;
 
         // Now call state machine with decompressed directory
         self.state_machine
@@ -903,7 +901,7 @@ where
         mut stream_chunk_receiver: mpsc::Receiver<SnapshotChunk>,
         ack_tx: mpsc::Sender<SnapshotAck>,
         config: &SnapshotConfig,
-    ) -> Result<(SnapshotMetadata, PathBuf)> {
+    ) -> Result<(SnapshotMetadata, PathBuf, tempfile::TempDir)> {
         let mut assembler = SnapshotAssembler::new(self.path_mgr.clone()).await?;
         let chunk_timeout = Duration::from_secs(config.receive_chunk_timeout_in_sec);
         let mut last_received = Instant::now();
@@ -1056,8 +1054,15 @@ where
             SnapshotError::OperationFailed("Missing metadata in snapshot stream".to_string())
         })?;
 
+        // A stream can pass every per-chunk check and still not be a usable snapshot (header
+        // fields such as total_chunks are outside the chunk CRC; the sender's file may be damaged).
+        // Unpack the assembled temp file first; only a valid archive is renamed to its final name.
+        assembler.flush_to_disk().await?;
+        let unpacked = tempdir()?;
+        self.decompress_to_directory(&assembler.temp_path, unpacked.path()).await?;
+
         let snapshot_path = assembler.finalize(&final_metadata).await?;
-        Ok((final_metadata, snapshot_path))
+        Ok((final_metadata, snapshot_path, unpacked))
     }
 
     /// Create transfer metadata with precomputed values
